@@ -163,11 +163,11 @@ Proof.
     rewrite firstn_all2 by (rewrite repeat_length; lia). rewrite all_eq_repeat. cbn [negb orb].
     replace (cap' <? k + length x - k) with false by (symmetry; apply Nat.ltb_ge; lia).
     rewrite skipn_app, repeat_length, Nat.sub_diag. rewrite skipn_all2 by (rewrite repeat_length; lia). reflexivity.
-  - intros x cap y H. destruct ((length x <=? k) || negb (all_eq m (firstn k x))) eqn:E; [discriminate|]. inversion H; subst.
-    apply orb_false_iff in E. destruct E as [E _]. apply Nat.leb_gt in E. rewrite skipn_length. split; [lia|].
+  - intros x cap y H. destruct ((length x <=? k) || negb (all_eq m (firstn k x)) || (cap <? length x - k)) eqn:E; [discriminate|]. inversion H; subst.
+    apply orb_false_iff in E. destruct E as [E _]. apply orb_false_iff in E. destruct E as [E _]. apply Nat.leb_gt in E. rewrite skipn_length. split; [lia|].
     intros _ Hn. apply (f_equal (@length N)) in Hn. rewrite skipn_length in Hn. cbn in Hn. lia.
-  - intros x cap y H cap' Hc. destruct ((length x <=? k) || negb (all_eq m (firstn k x))) eqn:E; [discriminate|]. inversion H; subst.
-    apply orb_false_iff in E. destruct E as [E1 E2]. apply Nat.leb_gt in E1. apply negb_false_iff in E2.
+  - intros x cap y H cap' Hc. destruct ((length x <=? k) || negb (all_eq m (firstn k x)) || (cap <? length x - k)) eqn:E; [discriminate|]. inversion H; subst.
+    apply orb_false_iff in E. destruct E as [E _]. apply orb_false_iff in E. destruct E as [E1 E2]. apply Nat.leb_gt in E1. apply negb_false_iff in E2.
     rewrite skipn_length. replace (cap' <? length x - k + k) with false by (symmetry; apply Nat.ltb_ge; lia).
     f_equal. apply all_eq_is_repeat in E2. rewrite firstn_length in E2. replace (Nat.min k (length x)) with k in E2 by lia.
     rewrite <- E2. apply firstn_skipn.
